@@ -156,3 +156,33 @@ Definition ops_monotone (f : flat) : bool :=
   | [o1; o2] => monotone3 o1 o2
   | _ => true
   end.
+
+(* ---- serial constraints (each a flat expression with an optional outer marker) *)
+Definition meet_piv (a b : piv) : piv :=
+  match a, b with
+  | IV l1 h1, IV l2 h2 => IV (meet_lo l1 l2) (meet_hi h1 h2)
+  | IV l h, NV | NV, IV l h => IV l h
+  | NV, NV => NV
+  end.
+
+Definition oracle_serial (c : list (flat * bool) * bool * option Z * option Z * bool) : bool :=
+  let '(cs, signed, omin, omax, oext) := c in
+  if negb (forallb (fun fc => forallb ranges_ok (fst (fst fc))) cs) then true else
+  let base_lo := if signed then None else Some 0 in
+  let pts := flat_map (fun fc => probes (fst fc)) cs in
+  let total := fold_left (fun acc fc => meet_piv acc (pv_flat (fst fc))) cs (IV base_lo None) in
+  forallb (fun z => implb (forallb (fun fc => semb_flat (fst fc) z) cs && (signed || Z.leb 0 z))
+                          (geb_opt omin z && leb_opt z omax)) pts
+  && (if forallb (fun fc => nonempty_flat (fst fc)) cs && nonempty_iv total then
+        match total with
+        | NV => true
+        | IV lo hi => opt_eqb Z.eqb omin lo && opt_eqb Z.eqb omax hi
+        end
+      else true)
+  && match omin, omax with
+     | None, None => true
+     | Some 0, None => if signed then Bool.eqb oext (existsb (fun fc => snd fc || existsb elem_x (fst (fst fc))) cs) else true
+     | _, _ => Bool.eqb oext (existsb (fun fc => snd fc || existsb elem_x (fst (fst fc))) cs)
+     end.
+
+Definition serial_monotone (c : list (flat * bool)) : bool := forallb (fun fc => ops_monotone (fst fc)) c.
